@@ -231,7 +231,7 @@ func (P *Program) unknownContractKeys() []string {
 		if !strings.Contains(ct.File, "zz_contracts_verif") && !strings.Contains(ct.File, "govc-contract-") {
 			continue
 		}
-		if strings.HasPrefix(key, "iface:") || strings.HasPrefix(key, "field:") || strings.HasSuffix(key, ".*") {
+		if strings.HasPrefix(key, "iface:") || strings.HasPrefix(key, "field:") || strings.HasPrefix(key, "functype:") || strings.HasSuffix(key, ".*") {
 			continue
 		}
 		k := key
